@@ -30,9 +30,20 @@ CHECKS = {
                 "by sampling only; identifiers are ASCII; Vec/str std behaviour is modelled.",
         "technique": "Coq proof (induction over call histories, refinement to a first-appearance partition) + differential correspondence",
     },
+    "C11": {
+        "text": "Theorems: each level's sort is sorted + permutation + stable for the level's Ord (proved for a stable insertion sort over comparisons "
+                "shown to be total preorders: byte-wise string order, Option with None first, lexicographic pairs) and those three facts determine the "
+                "output (any stable sort gives the same list); sorting is idempotent; the std binary_search_by loop returns the unique Equal element for "
+                "every monotone comparator (unbounded length). The four nested binary look-ups, renumber and base-26 letters are executable Gallina "
+                "mirrors tied by correspondence; binary look-up = linear scan is evaluated against the model's linear scan on every explored query.",
+        "design_ref": "DESIGN.md section 6 C11",
+        "note": "Trusted: Coq kernel, extraction, harness; std sort stability and binary_search_by's loop as modelled. The end-to-end theorem "
+                "'binary_find = linear_find on renumbered structures' and renumber idempotence are checked by correspondence, not yet proved.",
+        "technique": "Coq proof (stable-sort characterisation, binary-search loop invariant) + differential correspondence",
+    },
 }
 
 NOT_APPLICABLE = [
     {"property_id": p, "reason": PENDING}
-    for p in ["C01", "C02", "C03", "C04", "C05", "C06", "C09", "C10", "C11", "C12", "C13", "C14", "C15", "C16", "C17", "C18"]
+    for p in ["C01", "C02", "C03", "C04", "C05", "C06", "C09", "C10", "C12", "C13", "C14", "C15", "C16", "C17", "C18"]
 ]
